@@ -51,7 +51,7 @@ ASSUMPTIONS = [
     "time-aggregated program quantities are compared with the own stepped integral only on exactly representable grids with bin edges on time steps (atomica samples the step function at sub-steps, which is exact only there); coverage_capacity with t_bins is refused by atomica and not compared",
     "weighted averages are not compared at time points where value x weight underflows (below 1e-280): value x weight / weight then loses digits",
 ]
-BUDGET = {"quick": 1600, "thorough": 12800}  # thorough = 8x quick: a depth that was run to completion, quiet, at seed 1 (deterministic given the seed)
+BUDGET = {"quick": 1600, "thorough": 6400}  # thorough = 4x quick: a depth that was run to completion, quiet, at seed 1 (deterministic given the seed)
 TIME_CAP = {"quick": 45, "thorough": 1500}
 PROFILE = {"max_pops": 3, "p_timed": 0.2, "p_junction": 0.3, "max_steps": 12, "extreme": 0.0, "characs": True, "p_transfer": 0.5, "p_programs": 0.35}
 SCALES = [1e-12, 1e-10, 1e-8, 1e-7, 1e-6, 1e-3, 1.0, 1.0, 1.0, 1.0, 1e3, 1e6, 1e9]
